@@ -98,7 +98,7 @@ class MirIndex:
         self.closure_by_span = {}; self.simple_consts = {}
         self.coro = {}
         self._src = {}
-        self._impl_cache = {}; self._impl_ref = set(); self._impl_selfraw = {}
+        self._impl_cache = {}; self._impl_ref = set(); self._impl_selfraw = {}; self.alloc_static = {}
 
     def add(self, path, crate=None):
         base = len(self.lines)
@@ -123,6 +123,9 @@ class MirIndex:
                 if mm: self.simple_consts[mm.group(1).split('::')[-1]] = mm.group(3)
             elif l == '}' and cur is not None:
                 cur.hi = i; cur = None
+            elif l.startswith('alloc') and '(static: ' in l:
+                mm = re.match(r'alloc(\d+) \(static: ([^,)]+)', l)
+                if mm: self.alloc_static[(crate, int(mm.group(1)))] = mm.group(2)
             elif cur is not None and cur.file is None and ' at ' in l and '// ' in l:
                 m = re.search(r'scope \d+ at ([^:]+):(\d+):', l)
                 if m and not m.group(1).startswith('/'): cur.file, cur.line = m.group(1), int(m.group(2))
